@@ -16,7 +16,7 @@ struct Bad {
   int nops;  // number of matrix operands
 };
 static const Bad BAD[] = {
-    {"mzd_mul:inner", 2}, {"mzd_mul:C", 3}, {"mzd_mul:cutoff<0", 2}, {"mzd_addmul:inner", 3}, {"mzd_addmul:C", 3},
+    {"mzd_mul:inner", 2}, {"mzd_mul:C", 3}, {"mzd_mul:cutoff<0", 2}, {"mzd_addmul:cutoff<0", 3}, {"mzd_addmul:inner", 3}, {"mzd_addmul:C", 3},
     {"mzd_mul_m4rm:inner", 2}, {"mzd_mul_m4rm:C", 3}, {"mzd_addmul_m4rm:inner", 3}, {"mzd_addmul_m4rm:C", 3},
     {"mzd_mul_naive:C", 3}, {"mzd_addmul_naive:C", 3}, {"mzd_add:AB", 2}, {"mzd_add:C", 3}, {"mzd_transpose:DST", 2},
     {"mzd_copy:small", 2}, {"mzd_concat:rows", 2}, {"mzd_concat:C", 3}, {"mzd_stack:cols", 2}, {"mzd_stack:C", 3},
@@ -24,7 +24,7 @@ static const Bad BAD[] = {
     {"mzd_trsm_lower_left:dims", 2}, {"mzd_trsm_lower_left:square", 2}, {"mzd_trsm_upper_right:dims", 2},
     {"mzd_trsm_upper_right:square", 2}, {"mzd_trsm_lower_right:dims", 2}, {"mzd_trsm_lower_right:square", 2},
     {"mzd_ple:P", 1}, {"mzd_ple:Q", 1}, {"mzd_pluq:P", 1}, {"mzd_pluq:Q", 1}, {"mzd_solve_left:rows", 2},
-    {"mzd_solve_left:fewrows", 2}, {"mzd_pluq_solve_left:P", 2}, {"mzd_pluq_solve_left:rows", 2}, {"mzp_copy:small", 0},
+    {"mzd_solve_left:fewrows", 2}, {"mzd_pluq_solve_left:P", 2}, {"mzd_pluq_solve_left:Q", 2}, {"mzd_pluq_solve_left:rows", 2}, {"mzp_copy:small", 0},
 };
 static const int NBAD = sizeof(BAD) / sizeof(BAD[0]);
 
@@ -63,6 +63,7 @@ static void call_bad(const std::string &n, int a, int b, int c, int d) {
   if (n == "mzd_mul:inner") mzd_mul(nullptr, op(a, b, s), op(b + d, c, s + 1), 0);
   else if (n == "mzd_mul:C") mzd_mul(op(a, c + d, s + 2), op(a, b, s), op(b, c, s + 1), 0);
   else if (n == "mzd_mul:cutoff<0") mzd_mul(nullptr, op(a, b, s), op(b, c, s + 1), -1 - std::abs(d));
+  else if (n == "mzd_addmul:cutoff<0") mzd_addmul(op(a, c, s + 2), op(a, b, s), op(b, c, s + 1), -1 - std::abs(d));
   else if (n == "mzd_addmul:inner") mzd_addmul(op(a, c, s + 2), op(a, b, s), op(b + d, c, s + 1), 0);
   else if (n == "mzd_addmul:C") mzd_addmul(op(a + d, c, s + 2), op(a, b, s), op(b, c, s + 1), 0);
   else if (n == "mzd_mul_m4rm:inner") mzd_mul_m4rm(nullptr, op(a, b, s), op(b + d, c, s + 1), 0);
@@ -98,6 +99,9 @@ static void call_bad(const std::string &n, int a, int b, int c, int d) {
   else if (n == "mzd_solve_left:fewrows") mzd_solve_left(op(a, b + std::abs(d), s), op(b, c, s + 1), 0, 1);
   else if (n == "mzd_pluq_solve_left:P") {
     mzp_t *P = mzp_init(std::max(1, a + d)), *Q = mzp_init(b);
+    mzd_pluq_solve_left(op(a, b, s), 0, P, Q, op(std::max(a, b), c, s + 1), 0, 1);
+  } else if (n == "mzd_pluq_solve_left:Q") {
+    mzp_t *P = mzp_init(a), *Q = mzp_init(std::max(1, b + d));
     mzd_pluq_solve_left(op(a, b, s), 0, P, Q, op(std::max(a, b), c, s + 1), 0, 1);
   } else if (n == "mzd_pluq_solve_left:rows") {
     mzp_t *P = mzp_init(a), *Q = mzp_init(b + std::abs(d));
